@@ -227,3 +227,21 @@ pub fn fnv(s: &str) -> u64 {
     for b in s.bytes() { h ^= b as u64; h = h.wrapping_mul(0x100000001b3); }
     h
 }
+
+/// The harness records the input it is about to hand to the implementation (env TSGV_PROGRESS names the
+/// file): if the process dies — abort on allocation failure, stack overflow, a kill by the driver's timeout —
+/// the driver reports that input as the failing one.
+pub fn note_input(kind: &str, input: &serde_json::Value) {
+    if let Ok(path) = std::env::var("TSGV_PROGRESS") {
+        let _ = std::fs::write(&path, serde_json::json!({"kind": kind, "input": input}).to_string());
+    }
+}
+/// Bound the address space of this process: a runaway allocation in the implementation then aborts the
+/// harness (reported with the recorded input) instead of exhausting the machine.
+pub fn limit_memory() {
+    let gb: u64 = std::env::var("TSGV_MEM_GB").ok().and_then(|s| s.parse().ok()).unwrap_or(12);
+    unsafe {
+        let lim = libc::rlimit { rlim_cur: gb << 30, rlim_max: gb << 30 };
+        let _ = libc::setrlimit(libc::RLIMIT_AS, &lim);
+    }
+}
